@@ -1,32 +1,292 @@
 (* C05 -- client-side sessions are accepted only if issued by this server and unexpired.
-   Only property theorems here, each closed by `exact <lemma>`; proofs are in Proofs*.v.
-   hmac / dlen / E / D are universally quantified (Section variables of the model); the hypotheses
-   about them appear as premises. *)
-From CppcmsV Require Import Base.Tac Base.Sweep C15.Defs C05.Defs C05.Proofs.
+   Only property theorems here, each closed by `exact <lemma>`; proofs are in Proofs.v, ProofsAes.v,
+   ProofsCookies.v, ProofsConfig.v.  The model (Defs.v) is parametrised by the cryptographic primitives
+     hmac a k m : HMAC with hash number a and key k over m        dlen a : its digest size
+     E k b / D k b : one raw AES block operation under key k
+   which are universally quantified in every theorem; what is assumed about them is spelled out by the
+   abbreviations below and appears as premises.  Vocabulary (ProofsCookies.v): mac_of c body = the MAC the
+   configuration c computes over body; tag_len c its length; body_ok c body = block structure demanded of
+   an authenticated body (aes: whole blocks, at least two); plaintext_of c body = the plaintext an
+   authenticated body stands for (a function of the body and the cipher key only: no IV, no clock);
+   save_body c st p = the body a save produces for plaintext p when the encryptor IV is st;
+   session_plain d t = 8-byte expiry followed by the data. *)
+From CppcmsV Require Import Base.Tac Base.CSem Base.Sweep C15.Defs C05.Defs C05.Proofs C05.ProofsAes C05.ProofsCookies
+  C05.ProofsConfig C05.Toy C05.Link gen.Gen_c05key.
 Local Open Scope N_scope.
 
-(* A. the signing encryptor (hmac_cipher) *)
-Theorem hmac_save_load : forall hmac dlen, (forall a k m, length (hmac a k m) = dlen a) ->
+Definition hmac_fixed_len (hmac : N -> list N -> list N -> list N) (dlen : N -> nat) : Prop :=
+  forall a k m, length (hmac a k m) = dlen a.
+Definition block_len (F : list N -> list N -> list N) : Prop := forall k b, length (F k b) = 16%nat.
+Definition block_inverse (E D : list N -> list N -> list N) : Prop := forall k b, length b = 16%nat -> D k (E k b) = b.
+Definition hmac_bytes_ok (hmac : N -> list N -> list N -> list N) : Prop := forall a k m, bytes_ok (hmac a k m).
+Definition block_bytes_ok (E : list N -> list N -> list N) : Prop := forall k b, bytes_ok b -> bytes_ok (E k b).
+
+(* ===== 1. save then load returns the saved data and expiry iff not expired (every payload, IV, clock, both encryptors) ===== *)
+Theorem save_then_load : forall hmac dlen E D,
+  hmac_fixed_len hmac dlen -> block_len E -> block_len D -> block_inverse E D -> hmac_bytes_ok hmac -> block_bytes_ok E ->
+  forall c now st ivd d t,
+  length st = 16%nat -> bytes_ok st -> length ivd = 16%nat -> bytes_ok d -> time_ok t ->
+  N.of_nat (length d) + 8 < 4294967296 ->
+  cookies_load hmac dlen D c now ivd (fst (cookies_save hmac E c st d t)) =
+    if (t <? now)%Z then Reject true else Accept d t.
+Proof. exact save_load. Qed.
+Print Assumptions save_then_load.
+
+Theorem hmac_encryptor_roundtrip : forall hmac dlen, hmac_fixed_len hmac dlen ->
   forall a k p, hmac_decrypt hmac dlen a k (hmac_encrypt hmac a k p) = Some p.
 Proof. exact hmac_decrypt_encrypt. Qed.
-Print Assumptions hmac_save_load.
+Print Assumptions hmac_encryptor_roundtrip.
 
-(* acceptance <-> the last dlen bytes are the MAC of everything before them (whole tag, whole message) *)
-Theorem hmac_accept_iff_mac_of_whole_body : forall hmac dlen, (forall a k m, length (hmac a k m) = dlen a) ->
+Theorem aes_encryptor_roundtrip : forall hmac dlen E D,
+  hmac_fixed_len hmac dlen -> block_len E -> block_len D -> block_inverse E D ->
+  forall ck ma mk iv ivd p, length iv = 16%nat -> length ivd = 16%nat -> N.of_nat (length p) < 4294967296 ->
+  aes_decrypt hmac dlen D ck ma mk ivd (fst (aes_encrypt hmac E ck ma mk iv p)) = Some p.
+Proof. exact aes_decrypt_encrypt. Qed.
+Print Assumptions aes_encryptor_roundtrip.
+
+Example save_then_load_nonvacuous :
+  hmac_fixed_len toy_hmac toy_dlen /\ block_len toy_E /\ block_len toy_D /\ block_inverse toy_E toy_D /\
+  hmac_bytes_ok toy_hmac /\ block_bytes_ok toy_E /\
+  cookies_load toy_hmac toy_dlen toy_D toy_aes_cfg 1000 toy_iv2 (fst (cookies_save toy_hmac toy_E toy_aes_cfg toy_iv [104;105] 2000))
+    = Accept [104;105] 2000 /\
+  cookies_load toy_hmac toy_dlen toy_D toy_aes_cfg 2001 toy_iv2 (fst (cookies_save toy_hmac toy_E toy_aes_cfg toy_iv [104;105] 2000))
+    = Reject true /\
+  cookies_load toy_hmac toy_dlen toy_D toy_hmac_cfg 1000 toy_iv2 (fst (cookies_save toy_hmac toy_E toy_hmac_cfg toy_iv [104;105] 2000))
+    = Accept [104;105] 2000.
+Proof.
+  split; [exact toy_hmac_len|]. split; [exact toy_Elen|]. split; [exact toy_Elen|]. split; [exact toy_DE|].
+  split; [exact toy_hmac_bytes|]. split; [exact toy_E_bytes|].
+  split; [vm_compute; reflexivity|]. split; vm_compute; reflexivity.
+Qed.
+
+(* ===== 2. every accepted cookie carries a correct MAC over its ENTIRE cipher text; MAC before decryption ===== *)
+(* decrypt accepts iff: the last tag_len bytes are the MAC of everything before them, AND the body has the
+   demanded block structure, AND the plaintext read from the body is m.  The plaintext is plaintext_of c body. *)
+Theorem decrypt_accepts_iff_authentic : forall hmac dlen E D,
+  hmac_fixed_len hmac dlen -> block_len E -> block_len D -> block_inverse E D ->
+  forall c ivd ci m, length ivd = 16%nat ->
+  (decrypt hmac dlen D c ivd ci = Some m <->
+   (tag_len dlen c <= length ci)%nat /\
+   skipn (length ci - tag_len dlen c) ci = mac_of hmac c (firstn (length ci - tag_len dlen c) ci) /\
+   body_ok c (firstn (length ci - tag_len dlen c) ci) /\
+   plaintext_of D c (firstn (length ci - tag_len dlen c) ci) = Some m).
+Proof. exact decrypt_spec. Qed.
+Print Assumptions decrypt_accepts_iff_authentic.
+
+Theorem load_is_authentic : forall hmac dlen E D,
+  hmac_fixed_len hmac dlen -> block_len E -> block_len D -> block_inverse E D ->
+  forall c now ivd cookie d t, length ivd = 16%nat ->
+  cookies_load hmac dlen D c now ivd cookie = Accept d t ->
+  (now <= t)%Z /\
+  exists rest body tmp,
+    cookie = 67 :: rest /\
+    decode_str rest = Some (body ++ mac_of hmac c body) /\
+    body_ok c body /\
+    plaintext_of D c body = Some tmp /\
+    (8 <= length tmp)%nat /\ t = le64_dec (firstn 8 tmp) /\ d = skipn 8 tmp.
+Proof. exact load_authentic. Qed.
+Print Assumptions load_is_authentic.
+
+Theorem hmac_accepts_iff_mac_of_whole_message : forall hmac dlen, hmac_fixed_len hmac dlen ->
   forall a k c m,
   hmac_decrypt hmac dlen a k c = Some m <->
   (dlen a <= length c)%nat /\ m = firstn (length c - dlen a) c /\ skipn (length c - dlen a) c = hmac a k m.
 Proof. exact hmac_decrypt_some. Qed.
-Print Assumptions hmac_accept_iff_mac_of_whole_body.
+Print Assumptions hmac_accepts_iff_mac_of_whole_message.
 
-Theorem hmac_mutation_accepted_iff_collision : forall hmac dlen, (forall a k m, length (hmac a k m) = dlen a) ->
+(* opening what a save sealed gives the saved plaintext, whatever IV sealed it: plaintext_of is the inverse of save_body *)
+Theorem authenticated_body_determines_plaintext : forall hmac dlen E D,
+  hmac_fixed_len hmac dlen -> block_len E -> block_len D -> block_inverse E D ->
+  forall c st p, length st = 16%nat -> N.of_nat (length p) < 4294967296 ->
+  plaintext_of D c (save_body E c st p) = Some p.
+Proof. exact plaintext_of_save_body. Qed.
+Print Assumptions authenticated_body_determines_plaintext.
+
+Example load_is_authentic_nonvacuous :
+  exists d t, cookies_load toy_hmac toy_dlen toy_D toy_aes_cfg 1000 toy_iv2
+                (fst (cookies_save toy_hmac toy_E toy_aes_cfg toy_iv [1;2;3] 5000)) = Accept d t /\ d = [1;2;3] /\ t = 5000%Z.
+Proof. exists [1;2;3], 5000%Z. vm_compute. auto. Qed.
+
+(* ===== 3. accepted only if issued (first sentence of the property), under the one cryptographic assumption ===== *)
+(* hist: the saves made so far under configuration c, each with the IV the encryptor had.  The hypothesis UF is
+   existential unforgeability stated on this history and this cookie: if the presented cookie carries a correct
+   MAC over some body then that body is one the server issued.  Conclusion: the data and expiry returned are
+   exactly those of an earlier save, and the expiry is not in the past. *)
+Theorem accepted_only_if_issued : forall hmac dlen E D,
+  hmac_fixed_len hmac dlen -> block_len E -> block_len D -> block_inverse E D -> hmac_bytes_ok hmac -> block_bytes_ok E ->
+  forall c now ivd cookie d t (hist : list (list N * Z * list N)),
+  length ivd = 16%nat ->
+  Forall save_ok hist ->
+  (forall rest body, cookie = 67 :: rest -> decode_str rest = Some (body ++ mac_of hmac c body) ->
+                     In body (issued_bodies E c hist)) ->
+  cookies_load hmac dlen D c now ivd cookie = Accept d t ->
+  (now <= t)%Z /\ exists st, In (d, t, st) hist.
+Proof. exact issued_only. Qed.
+Print Assumptions accepted_only_if_issued.
+
+Example accepted_only_if_issued_nonvacuous :
+  let hist := [([1;2;3], 5000%Z, toy_iv)] in
+  Forall save_ok hist /\
+  In (save_body toy_E toy_aes_cfg toy_iv (session_plain [1;2;3] 5000)) (issued_bodies toy_E toy_aes_cfg hist) /\
+  cookies_load toy_hmac toy_dlen toy_D toy_aes_cfg 1000 toy_iv2
+    (fst (cookies_save toy_hmac toy_E toy_aes_cfg toy_iv [1;2;3] 5000)) = Accept [1;2;3] 5000.
+Proof.
+  cbv zeta. split; [|split; [left; reflexivity|vm_compute; reflexivity]].
+  constructor; [|constructor]. unfold save_ok, time_ok.
+  repeat split; try (vm_compute; congruence); try reflexivity.
+  repeat (apply bytes_ok_cons; split; [lia|]). constructor.
+Qed.
+
+(* ===== 4. mutations: acceptance of a changed cookie is exactly a MAC collision ===== *)
+(* any cipher text body' ++ tag' (tag of the right length) that is accepted has tag' = MAC(body') *)
+Theorem mutation_accepted_only_with_correct_mac : forall hmac dlen E D,
+  hmac_fixed_len hmac dlen -> block_len E -> block_len D -> block_inverse E D -> hmac_bytes_ok hmac -> block_bytes_ok E ->
+  forall c now ivd body' tag' d t, length ivd = 16%nat -> length tag' = tag_len dlen c -> bytes_ok (body' ++ tag') ->
+  cookies_load hmac dlen D c now ivd (67 :: encode_str (body' ++ tag')) = Accept d t -> tag' = mac_of hmac c body'.
+Proof. exact load_mutation_needs_mac. Qed.
+Print Assumptions mutation_accepted_only_with_correct_mac.
+
+(* bytes of the tag changed, body unchanged: always rejected and cleared (no assumption about the MAC at all) *)
+Theorem tag_mutation_rejected : forall hmac dlen E D,
+  hmac_fixed_len hmac dlen -> block_len E -> block_len D -> block_inverse E D -> hmac_bytes_ok hmac -> block_bytes_ok E ->
+  forall c now ivd body tag', length ivd = 16%nat -> length tag' = tag_len dlen c -> bytes_ok (body ++ tag') ->
+  tag' <> mac_of hmac c body ->
+  cookies_load hmac dlen D c now ivd (67 :: encode_str (body ++ tag')) = Reject true.
+Proof. exact load_tag_mutation_rejected. Qed.
+Print Assumptions tag_mutation_rejected.
+
+(* bytes of the body changed (bit flips, block swaps, splices, whole-block truncation/extension) under the original
+   tag: accepted only if MAC(body') = MAC(body) *)
+Theorem body_mutation_accepted_only_on_collision : forall hmac dlen E D,
+  hmac_fixed_len hmac dlen -> block_len E -> block_len D -> block_inverse E D -> hmac_bytes_ok hmac -> block_bytes_ok E ->
+  forall c now ivd body body' d t, length ivd = 16%nat -> bytes_ok (body' ++ mac_of hmac c body) ->
+  cookies_load hmac dlen D c now ivd (67 :: encode_str (body' ++ mac_of hmac c body)) = Accept d t ->
+  mac_of hmac c body' = mac_of hmac c body.
+Proof. exact load_body_mutation_needs_collision. Qed.
+Print Assumptions body_mutation_accepted_only_on_collision.
+
+(* cross-key / cross-algorithm transplant: a cookie saved under c1 is accepted under c2 only if both MACs agree on its body *)
+Theorem transplant_accepted_only_if_macs_agree : forall hmac dlen E D,
+  hmac_fixed_len hmac dlen -> block_len E -> block_len D -> block_inverse E D -> hmac_bytes_ok hmac -> block_bytes_ok E ->
+  forall c1 c2 now ivd st d0 t0 d t, length ivd = 16%nat -> tag_len dlen c1 = tag_len dlen c2 -> bytes_ok st -> bytes_ok d0 ->
+  cookies_load hmac dlen D c2 now ivd (fst (cookies_save hmac E c1 st d0 t0)) = Accept d t ->
+  mac_of hmac c2 (save_body E c1 st (session_plain d0 t0)) = mac_of hmac c1 (save_body E c1 st (session_plain d0 t0)).
+Proof. exact load_transplant_needs_equal_macs. Qed.
+Print Assumptions transplant_accepted_only_if_macs_agree.
+
+Theorem hmac_mutation_iff_collision : forall hmac dlen, hmac_fixed_len hmac dlen ->
   forall a k body tag, length tag = dlen a ->
   (hmac_decrypt hmac dlen a k (body ++ tag) = Some body <-> tag = hmac a k body) /\
   (hmac_decrypt hmac dlen a k (body ++ tag) = None <-> tag <> hmac a k body).
 Proof. exact hmac_decrypt_body_tag. Qed.
-Print Assumptions hmac_mutation_accepted_iff_collision.
+Print Assumptions hmac_mutation_iff_collision.
 
-Theorem hmac_short_rejected : forall hmac dlen, (forall a k m, length (hmac a k m) = dlen a) ->
-  forall a k c, (length c < dlen a)%nat -> hmac_decrypt hmac dlen a k c = None.
-Proof. exact hmac_decrypt_short. Qed.
-Print Assumptions hmac_short_rejected.
+(* structure: shorter than the digest; aes: shorter than digest + two blocks, or not a whole number of blocks *)
+Theorem too_short_rejected : forall hmac dlen E D,
+  hmac_fixed_len hmac dlen -> block_len E -> block_len D -> block_inverse E D ->
+  forall c ivd ci, (length ci < tag_len dlen c)%nat -> decrypt hmac dlen D c ivd ci = None.
+Proof. exact decrypt_short_rejected. Qed.
+Print Assumptions too_short_rejected.
+
+Theorem aes_bad_structure_rejected : forall hmac dlen E D,
+  hmac_fixed_len hmac dlen -> block_len E -> block_len D -> block_inverse E D ->
+  forall ck ma mk ivd ci,
+  ((length ci < dlen ma + 32)%nat \/ ((length ci - dlen ma) mod 16 <> 0)%nat) ->
+  aes_decrypt hmac dlen D ck ma mk ivd ci = None.
+Proof. exact aes_decrypt_structure_rejected. Qed.
+Print Assumptions aes_bad_structure_rejected.
+
+Example mutation_nonvacuous :
+  (* one flipped bit in the tag, one in the body, one block dropped: all rejected by the toy instance *)
+  let ck := fst (cookies_save toy_hmac toy_E toy_hmac_cfg toy_iv [1;2;3] 5000) in
+  cookies_load toy_hmac toy_dlen toy_D toy_hmac_cfg 1000 toy_iv2 ck = Accept [1;2;3] 5000 /\
+  cookies_load toy_hmac toy_dlen toy_D toy_hmac_cfg 1000 toy_iv2
+    (67 :: encode_str (session_plain [1;2;3] 5000 ++ [0; 0])) = Reject true /\
+  cookies_load toy_hmac toy_dlen toy_D toy_hmac_cfg 1000 toy_iv2
+    (67 :: encode_str (session_plain [1;2;7] 5000 ++ mac_of toy_hmac toy_hmac_cfg (session_plain [1;2;3] 5000))) = Reject true.
+Proof. vm_compute. auto. Qed.
+
+(* ===== 5. rejects are safe ===== *)
+(* every reject clears the cookie (unless none was sent) *)
+Theorem reject_clears_cookie : forall hmac dlen D c now ivd cookie b,
+  cookies_load hmac dlen D c now ivd cookie = Reject b -> (cookie = [] /\ b = false) \/ (cookie <> [] /\ b = true).
+Proof. exact load_reject_cleared. Qed.
+Print Assumptions reject_clears_cookie.
+
+Theorem encryptor_reject_is_cookie_reject : forall hmac dlen D c now ivd rest ci,
+  decode_str rest = Some ci -> decrypt hmac dlen D c ivd ci = None ->
+  cookies_load hmac dlen D c now ivd (67 :: rest) = Reject true.
+Proof. exact load_rejects_what_decrypt_rejects. Qed.
+Print Assumptions encryptor_reject_is_cookie_reject.
+
+(* the inner length field of an accepted aes cipher text never reaches past the decrypted bytes:
+   size + 16 (unused first block) + 4 (length field) <= body length *)
+Theorem aes_inner_length_in_range : forall hmac dlen E D,
+  hmac_fixed_len hmac dlen -> block_len E -> block_len D -> block_inverse E D ->
+  forall ck ma mk ivd ci m, length ivd = 16%nat ->
+  aes_decrypt hmac dlen D ck ma mk ivd ci = Some m ->
+  exists size, (size + 20 <= length ci - dlen ma)%nat /\
+    m = firstn size (skipn 20 (cbc_dec D ck ((length ci - dlen ma) / 16) zero16 (firstn (length ci - dlen ma) ci))).
+Proof. exact aes_accept_in_range. Qed.
+Print Assumptions aes_inner_length_in_range.
+
+(* ===== 6. structural preconditions of confidentiality (the indistinguishability claim itself is NOT proved) ===== *)
+(* after an encryption the IV of the encryptor is the last cipher block (chained, never reset to the nonce) *)
+Theorem aes_iv_is_chained : forall hmac dlen E D,
+  hmac_fixed_len hmac dlen -> block_len E -> block_len D -> block_inverse E D ->
+  forall ck ma mk iv p,
+  snd (aes_encrypt hmac E ck ma mk iv p) = skipn (aes_total (length p) - 16) (aes_body E ck iv p).
+Proof. exact aes_encrypt_next_iv. Qed.
+Print Assumptions aes_iv_is_chained.
+
+(* different IVs give different cipher texts for the same payload *)
+Theorem aes_different_iv_different_ciphertext : forall hmac dlen E D,
+  hmac_fixed_len hmac dlen -> block_len E -> block_len D -> block_inverse E D ->
+  forall ck ma mk iv1 iv2 p, length iv1 = 16%nat -> length iv2 = 16%nat -> iv1 <> iv2 ->
+  fst (aes_encrypt hmac E ck ma mk iv1 p) <> fst (aes_encrypt hmac E ck ma mk iv2 p).
+Proof. exact aes_encrypt_iv_injective. Qed.
+Print Assumptions aes_different_iv_different_ciphertext.
+
+Example aes_iv_nonvacuous :
+  fst (aes_encrypt toy_hmac toy_E toy_key 1 [42;43] toy_iv [1;2;3]) <> fst (aes_encrypt toy_hmac toy_E toy_key 1 [42;43] toy_iv2 [1;2;3]) /\
+  length (snd (aes_encrypt toy_hmac toy_E toy_key 1 [42;43] toy_iv [1;2;3])) = 16%nat.
+Proof. split; [vm_compute; congruence|reflexivity]. Qed.
+
+(* ===== 7. configuration: no cipher without MAC, no short signing key ===== *)
+Theorem cipher_without_mac_refused : forall enc cbc key hkey ckey, cbc <> [] ->
+  exists code, pool_config enc [] cbc key hkey ckey = inl (PrepErr code false) /\ (code = 2 \/ code = 3).
+Proof. exact pool_cbc_without_mac_refused. Qed.
+Print Assumptions cipher_without_mac_refused.
+
+Theorem short_signing_key_refused : forall hmac dlen an k, (length k < 16)%nat ->
+  prepare hmac dlen (RHmac an k) = PrepErr 8 false.
+Proof. exact prepare_hmac_short_key_refused. Qed.
+Print Assumptions short_signing_key_refused.
+
+Theorem usable_signing_key_has_16_bytes : forall hmac dlen an k a k',
+  prepare hmac dlen (RHmac an k) = PrepOk (CHmac a k') -> k' = k /\ (16 <= length k)%nat /\ hash_id an = Some a.
+Proof. exact prepare_hmac_ok_key_length. Qed.
+Print Assumptions usable_signing_key_has_16_bytes.
+
+Theorem usable_cipher_key_has_exact_size : forall hmac dlen cn ck mn mk ck' a mk',
+  prepare hmac dlen (RAes cn ck mn mk) = PrepOk (CAes ck' a mk') ->
+  ck' = ck /\ mk' = mk /\ cbc_key_size cn = Some (length ck) /\ hash_id mn = Some a.
+Proof. exact prepare_aes_ok_key_size. Qed.
+Print Assumptions usable_cipher_key_has_exact_size.
+
+Theorem combined_key_split_exactly : forall hmac (dlen : N -> nat) cks k, length k = (cks + dlen 1%N)%nat ->
+  aes_combined_keys hmac dlen cks k = Some (firstn cks k, skipn cks k).
+Proof. exact aes_combined_split. Qed.
+Print Assumptions combined_key_split_exactly.
+
+Example configuration_nonvacuous :
+  pool_config [] [] [97;101;115] [] [] [48;48] = inl (PrepErr 3 false) /\
+  prepare toy_hmac toy_dlen (RHmac [115;104;97;49] [1;2;3]) = PrepErr 8 false /\
+  prepare toy_hmac toy_dlen (RHmac [83;72;65;49] toy_key) = PrepOk (CHmac 1 toy_key).
+Proof. vm_compute. auto. Qed.
+
+(* ===== 8. tie to the source: crypto::key::from_hex regenerated from src/crypto.cpp equals the model's digit value ===== *)
+Theorem source_from_hex_is_model_hexv : forall b, b < 256 ->
+  Z.to_N (g_key_from_hex (wraps 8 (Z.of_N b))) = match hexv b with Some v => v | None => 0 end.
+Proof. exact link_from_hex. Qed.
+Print Assumptions source_from_hex_is_model_hexv.
